@@ -93,6 +93,26 @@ CLAIMED = {
    note=TB + "The bech32 prefix is the built-in default 'bcrt'; base58check corruption detection is probabilistic and only tested.",
    technique="Coq proofs on the codec algorithms and transform compositions + differential correspondence of command/inline/opcode forms",
    ref="DESIGN.md §2 C14"),
+ "C08": dict(
+   text="Theorems: the hex printer emits exactly two lower-case hex digits per byte and is injective; the printed stack (one line per item, "
+        "bottom first) determines the stack; an exit-0 run means the session of C01 ran to the end without error and stdout is exactly that "
+        "rendering (C08_outcome). PARTIAL (stated): process-level facts (isatty, signals, stdio, getopt) and independence from --quiet / "
+        "--debug / DEBUG_* are observed by running the real binary, not proved. Tie: the rebuilt btcdeb binary on hand-made and "
+        "grammar-generated scripts (incl. every exception class) x {script on argv with a pty as stdin, script on stdin} x option variants: "
+        "exit status / signal, stdout bytes, stderr message vs the extracted Cli.main_noninteractive.",
+   note=TB + "stdout on a FAILING run (the dual-stack table) is not modelled; only exit status and the stderr message are compared there.",
+   technique="Coq proofs on printer + outcome inversion; differential correspondence against the real binary under pipes/ptys",
+   ref="DESIGN.md §2 C08"),
+ "C09": dict(
+   text="Theorems over GENERATED tables (svf table, STANDARD set, every flag test of the executed interpreter code): 21 distinct names with "
+        "distinct single-bit values covering exactly the enum; +NAME sets / -NAME clears exactly that bit; known tokens fold, unknown names / "
+        "missing sign / empty tokens are rejected; --default-flags lists exactly the standard set; every flag test has a restrictive shape; "
+        "each flag-dependent check (number minimality, signature and key encoding) passes under A whenever it passes under B >= A. PARTIAL "
+        "(stated): whole-execution monotonicity is not one theorem; it is evaluated on paired runs of the implementation under inclusion "
+        "chains. Tie: -d and -f<list> -v listings (pty), behavioural probes per flag, flag-chain sessions vs model.",
+   note=TB + "svf_string's output separator/bullets are parsed by the check, not modelled.",
+   technique="Coq proofs over translator-generated flag tables and sites + CLI correspondence + paired-run monotonicity relation",
+   ref="DESIGN.md §2 C09"),
 }
 
 NOT_YET = {}
